@@ -263,7 +263,7 @@ Proof.
     (* the map after the call: unchanged, or rolled back — never costlier than the whole universe *)
     assert (Ecm : unbound_cost g U (cmap (finish_shared res sh')) <= unbound_cost g U (cmap sh') \/
                   unbound_cost g U (cmap (finish_shared res sh')) <= B).
-    { destruct res; [right; apply unbound_le | left; cbn; lia | left; cbn; lia]. }
+    { destruct res; [right; apply unbound_le | right; apply unbound_le | left; cbn; lia | left; cbn; lia]. }
     pose proof (list_sum_set_nth (thread_cost B) (s_thr st) t th (finish_thread th res) Ht) as S.
     rewrite (thread_cost_finish B _ _ _ res Hc) in S.
     unfold release; cbn [s_sh s_lock s_waitq s_thr]. lia.
